@@ -3,47 +3,40 @@ import BleveModel.Model.Nested
 namespace Bleve.Drv.C20
 open Bleve.Proto Bleve.Nested
 
-def parsePairs : Nat → List String → Option (Obj × List String)
+def parsePairs : Nat → List String → Option (List (Name × Term) × List String)
   | 0, rest => some ([], rest)
   | n+1, f :: t :: rest => match parseHexBytes f, parseHexBytes t, parsePairs n rest with
     | some f, some t, some (ps, r) => some ((f, t) :: ps, r)
     | _, _, _ => none
   | _, _ => none
 
-def parseObjs : Nat → List String → Option (List Obj × List String)
-  | 0, rest => some ([], rest)
-  | n+1, np :: rest => match parseNat np with
-    | some np => match parsePairs np rest with
-      | some (o, r) => match parseObjs n r with
-        | some (os, r') => some (o :: os, r')
-        | none => none
-      | none => none
-    | none => none
-  | _, [] => none
+/-- `-` or hex components joined by `.` -/
+def parsePath (s : String) : Option Path :=
+  if s == "-" then some [] else (s.splitOn ".").mapM parseHexBytes
 
-def parseArrays : Nat → List String → Option (List (Name × List Obj) × List String)
+/-- `-` or decimal indexes joined by `.` -/
+def parseIdx (s : String) : Option (List Nat) :=
+  if s == "-" then some [] else (s.splitOn ".").mapM parseNat
+
+def parseNodes : Nat → List String → Option (List Node × List String)
   | 0, rest => some ([], rest)
-  | n+1, a :: ne :: rest => match parseHexBytes a, parseNat ne with
-    | some a, some ne => match parseObjs ne rest with
-      | some (os, r) => match parseArrays n r with
-        | some (as, r') => some ((a, os) :: as, r')
+  | n+1, ap :: ix :: nf :: rest => match parsePath ap, parseIdx ix, parseNat nf with
+    | some ap, some ix, some nf => match parsePairs nf rest with
+      | some (fs, r) => match parseNodes n r with
+        | some (ns, r') => some (⟨ap, ix, fs⟩ :: ns, r')
         | none => none
       | none => none
-    | _, _ => none
+    | _, _, _ => none
   | _, _ => none
 
 def parseDocs : Nat → List String → Option (List Doc × List String)
   | 0, rest => some ([], rest)
-  | n+1, id :: nt :: rest => match parseHexBytes id, parseNat nt with
-    | some id, some nt => match parsePairs nt rest with
-      | some (top, na :: r) => match parseNat na with
-        | some na => match parseArrays na r with
-          | some (arrs, r') => match parseDocs n r' with
-            | some (ds, r'') => some (⟨id, top, arrs⟩ :: ds, r'')
-            | none => none
-          | none => none
+  | n+1, id :: nn :: rest => match parseHexBytes id, parseNat nn with
+    | some id, some nn => match parseNodes nn rest with
+      | some (ns, r) => match parseDocs n r with
+        | some (ds, r') => some (⟨id, ns⟩ :: ds, r')
         | none => none
-      | _ => none
+      | none => none
     | _, _ => none
   | _, _ => none
 
@@ -51,7 +44,7 @@ mutual
   def parseQ : Nat → List String → Option (Q × List String)
     | 0, _ => none
     | fuel+1, toks => match toks with
-      | "T" :: a :: f :: t :: rest => match parseHexBytes a, parseHexBytes f, parseHexBytes t with
+      | "T" :: a :: f :: t :: rest => match parsePath a, parseHexBytes f, parseHexBytes t with
         | some a, some f, some t => some (.term a f t, rest)
         | _, _, _ => none
       | "C" :: n :: rest => match parseNat n with
